@@ -1138,7 +1138,7 @@ class History(object):
             neg = [c for c in us if self.mc(c).negotiated]
             S = rng.choice(neg) if neg and rng.random() < 0.8 else rng.choice(us)
             r = rng.random()
-            if self.timeout_ms is not None and self.M >= 2 and self.mc(S).negotiated and not self.mc(S).q and rng.random() < 0.07:
+            if self.timeout_ms is not None and self.M >= 2 and self.mc(S).negotiated and not self.mc(S).q and rng.random() < 0.045:
                 self.op_surplus_keepalive(S)
                 continue
             if r < 0.58:
